@@ -8,6 +8,7 @@
   yield points) plus free-running stress.
 -/
 import TT.Model.ArenaConc
+import TT.Lemmas.ArenaConc
 
 namespace TT
 
@@ -33,7 +34,26 @@ theorem C10_all_schedules (hash : CallSite → Nat) (arena₀ : CArena) (hwf : a
       ∀ r ∈ s.resultsOf t, r.1 < s.arena.items.length) ∧
     (∀ i, i < s.arena.items.length →
       ((allResults s).filter fun r => r.1 == i && r.2).length = if i < arena₀.items.length then 0 else 1) := by
-  sorry
+  intro s
+  have inv : ar_CInv hash arena₀.items.length work s :=
+    ar_crun_inv sched _ (ar_init_inv hash arena₀ hwf work hw)
+  refine ⟨inv.wf, ?_, inv.cnt⟩
+  intro t ds hm
+  obtain ⟨th, hg, hT⟩ := inv.thr t ds hm
+  have hres : s.resultsOf t = th.results.reverse := by simp [CState.resultsOf, hg]
+  rw [hres]
+  constructor
+  · have hdec : ∃ rest, ds = ar_desc s.arena.items th.results ++ rest := by
+      obtain ⟨todo, phase, results⟩ := th
+      cases phase with
+      | idle => exact ⟨_, hT⟩
+      | scanned d len => exact ⟨_, hT.1⟩
+    obtain ⟨rest, e⟩ := hdec
+    rw [e]
+    unfold ar_desc
+    rw [List.take_left' (by simp)]
+  · intro r hr
+    exact inv.bound r (ar_allRes_mem _ t th hg r (List.mem_reverse.1 hr))
 
 /-- Equal descriptions ⇒ identical object, different ⇒ distinct, across threads (corollary). -/
 theorem C10_same_iff_equal (hash : CallSite → Nat) (arena₀ : CArena) (hwf : arena₀.WF hash)
@@ -43,7 +63,16 @@ theorem C10_same_iff_equal (hash : CallSite → Nat) (arena₀ : CArena) (hwf : 
     (hr₁ : ((crun hash (CState.init arena₀ work) sched).resultsOf t₁)[k₁]? = some r₁)
     (hr₂ : ((crun hash (CState.init arena₀ work) sched).resultsOf t₂)[k₂]? = some r₂) :
     (r₁.1 = r₂.1 ↔ ds₁[k₁]? = ds₂[k₂]?) := by
-  sorry
+  obtain ⟨hwf', hthr, _⟩ := C10_all_schedules hash arena₀ hwf work hw sched
+  obtain ⟨hm1, hb1⟩ := hthr t₁ ds₁ h₁
+  obtain ⟨hm2, hb2⟩ := hthr t₂ ds₂ h₂
+  rw [ar_take_getElem? _ _ _ _ _ hm1 hr₁, ar_take_getElem? _ _ _ _ _ hm2 hr₂]
+  simp only [Option.some.injEq]
+  constructor
+  · intro e; rw [e]
+  · intro e
+    exact ar_nodup_getD_inj _ hwf'.1 _ _ (hb1 r₁ (List.mem_of_getElem? hr₁))
+      (hb2 r₂ (List.mem_of_getElem? hr₂)) e
 
 /-- No announcement fails or blocks forever: every step of an unfinished thread makes progress,
     and a schedule that gives every thread two steps per announcement completes all of them. -/
@@ -52,7 +81,7 @@ theorem C10_completes (hash : CallSite → Nat) (arena₀ : CArena) (work : List
     (hfair : ∀ t ds, (t, ds) ∈ work → 2 * ds.length ≤ (sched.filter (· == t)).length) :
     (crun hash (CState.init arena₀ work) sched).finished = true ∧
     ∀ t ds, (t, ds) ∈ work → ((crun hash (CState.init arena₀ work) sched).resultsOf t).length = ds.length := by
-  sorry
+  exact ar_completes hash arena₀ work hw sched hfair
 
 /-- Non-vacuity: two threads race on the same new description (both scan before either inserts),
     a third announces a different one with a colliding hash. -/
